@@ -44,6 +44,10 @@ pub struct EnvState {
     pub env_reads_total: u64,
     /// names the code under test asked for
     pub env_names: std::collections::BTreeSet<String>,
+    /// files the code under test tried to open (the library performs no I/O today)
+    pub files_opened: std::collections::BTreeSet<String>,
+    pub file_opens_total: u64,
+    pub file_opens_denied: u64,
 }
 
 pub type Env = Arc<Mutex<EnvState>>;
@@ -219,6 +223,60 @@ pub unsafe extern "C" fn getenv(name: *const std::os::raw::c_char) -> *mut std::
     real_getenv(bytes)
 }
 
+extern "C" {
+    fn __errno_location() -> *mut c_int;
+}
+
+const SYS_OPENAT: c_long = 257;
+const AT_FDCWD: c_long = -100;
+const ENOENT: c_int = 2;
+
+/// Fourth seam: opening files. The library reads no file today; if a change makes it consult the
+/// file system (a user database, /proc, a configuration file), the simulator sees the path and
+/// makes the file appear and disappear with the environment epoch (ENOENT in half of the epochs),
+/// so that a result depending on it shows up as a difference between equal inputs.
+unsafe fn sim_open(dirfd: c_long, path: *const std::os::raw::c_char, flags: c_int, mode: c_uint) -> c_int {
+    let env = active();
+    if !env.is_null() && !path.is_null() {
+        let text = std::ffi::CStr::from_ptr(path).to_string_lossy().to_string();
+        let mut st = (*env).lock().unwrap_or_else(|e| e.into_inner());
+        st.file_opens_total += 1;
+        let deny = crate::rng::mix(&[crate::rng::hash_str(&text), st.env_seed, st.env_epoch, 0xF11E]) % 2 == 0;
+        st.files_opened.insert(text);
+        if deny {
+            st.file_opens_denied += 1;
+            *__errno_location() = ENOENT;
+            return -1;
+        }
+    }
+    let r = syscall(SYS_OPENAT, dirfd, path, flags as c_long, mode as c_long);
+    if r < 0 {
+        *__errno_location() = (-r) as c_int;
+        return -1;
+    }
+    r as c_int
+}
+
+#[no_mangle]
+pub unsafe extern "C" fn open64(path: *const std::os::raw::c_char, flags: c_int, mode: c_uint) -> c_int {
+    sim_open(AT_FDCWD, path, flags, mode)
+}
+
+#[no_mangle]
+pub unsafe extern "C" fn open(path: *const std::os::raw::c_char, flags: c_int, mode: c_uint) -> c_int {
+    sim_open(AT_FDCWD, path, flags, mode)
+}
+
+#[no_mangle]
+pub unsafe extern "C" fn openat(dirfd: c_int, path: *const std::os::raw::c_char, flags: c_int, mode: c_uint) -> c_int {
+    sim_open(dirfd as c_long, path, flags, mode)
+}
+
+#[no_mangle]
+pub unsafe extern "C" fn openat64(dirfd: c_int, path: *const std::os::raw::c_char, flags: c_int, mode: c_uint) -> c_int {
+    sim_open(dirfd as c_long, path, flags, mode)
+}
+
 /// Self-test used by `fpsim selfcheck`: both seams must be live in this binary.
 pub fn seams_are_live() -> Result<(), String> {
     let env = new_env(CLOCK_FLOOR + 12345);
@@ -238,6 +296,9 @@ pub fn seams_are_live() -> Result<(), String> {
         };
         let e = std::env::var_os("FPSIM_PROBE_VARIABLE_A").is_some() as u8 + std::env::var_os("FPSIM_PROBE_VARIABLE_B").is_some() as u8 + std::env::var_os("FPSIM_PROBE_VARIABLE_C").is_some() as u8 + std::env::var_os("FPSIM_PROBE_VARIABLE_D").is_some() as u8;
         let _ = e;
+        for name in ["/nonexistent/fpsim-probe-a", "/nonexistent/fpsim-probe-b", "/etc/hostname", "/etc/passwd"] {
+            let _ = std::fs::File::open(name);
+        }
         (t, order(16))
     })
     .join()
@@ -262,6 +323,9 @@ pub fn seams_are_live() -> Result<(), String> {
     let st = env.lock().unwrap();
     if st.getrandom_calls < 2 || st.wall_reads_total < 1 {
         return Err("seam counters did not move".into());
+    }
+    if st.file_opens_total < 4 {
+        return Err("file-open seam not live: opens of the probe thread were not seen".into());
     }
     if st.env_reads_total < 4 {
         return Err("environment seam not live: getenv calls of the probe thread were not seen".into());
